@@ -77,3 +77,63 @@ pub use crate::sparse_matrix::SparseBinaryMatrix;
 pub use crate::symbol::Symbol;
 #[cfg(feature = "benchmarking")]
 pub use crate::symbol_slab::SymbolSlab;
+
+// Verification hooks (off by default): re-exports of items that are already `pub` inside private
+// modules plus the cfg-guarded observability helpers. No behaviour depends on this feature.
+#[cfg(feature = "verif")]
+pub mod verif {
+    pub use crate::base::{deg, intermediate_tuple};
+    #[cfg(feature = "std")]
+    pub use crate::encoder::verif_cache;
+    pub use crate::octet::OCTET_MUL;
+    pub use crate::octet::Octet;
+    #[cfg(feature = "std")]
+    pub use crate::octet::{OCTET_MUL_HI_BITS, OCTET_MUL_LOW_BITS};
+    pub use crate::octets::BinaryOctetVec;
+    #[cfg(feature = "std")]
+    pub use crate::octets::verif_kernels;
+    pub use crate::octets::{
+        add_assign, fused_addassign_mul_scalar, fused_addassign_mul_scalar_binary, mulassign_scalar,
+    };
+    pub use crate::rng::rand;
+    pub use crate::systematic_constants::{
+        calculate_p1, num_hdpc_symbols, num_intermediate_symbols, num_ldpc_symbols, num_lt_symbols,
+        num_pi_symbols, systematic_index,
+    };
+    pub use crate::verif_events as events;
+}
+
+#[cfg(feature = "verif")]
+pub mod verif_events {
+    use core::sync::atomic::{AtomicU64, Ordering};
+
+    pub const DEC_CASE1_TOO_FEW: usize = 0;
+    pub const DEC_CASE2_ALL_SOURCE: usize = 1;
+    pub const DEC_CASE3A_TRY: usize = 2;
+    pub const DEC_CASE3A_OK: usize = 3;
+    pub const DEC_CASE3B_TRY: usize = 4;
+    pub const DEC_CASE3B_OK: usize = 5;
+    pub const CACHE_HIT: usize = 6;
+    pub const CACHE_MISS: usize = 7;
+    pub const CACHE_LOST_RACE: usize = 8;
+    pub const CACHE_INSERT: usize = 9;
+    pub const CACHE_EVICT: usize = 10;
+    pub const N: usize = 11;
+
+    #[allow(clippy::declare_interior_mutable_const)]
+    const ZERO: AtomicU64 = AtomicU64::new(0);
+    static EVENTS: [AtomicU64; N] = [ZERO; N];
+
+    #[inline]
+    pub fn count(ev: usize) {
+        EVENTS[ev].fetch_add(1, Ordering::Relaxed);
+    }
+
+    pub fn read() -> [u64; N] {
+        let mut out = [0u64; N];
+        for (i, e) in EVENTS.iter().enumerate() {
+            out[i] = e.load(Ordering::Relaxed);
+        }
+        out
+    }
+}
